@@ -509,12 +509,13 @@ static void spaceObserverDigraphs(vf::Runner& R, int nmax) {
 // ------------------------------------------------------------------------------------------------
 struct TreeSys : vf::SysBase {
   enum { N = 5 };
-  enum Kind { CREATE, CREATESON, SETFATHER, ADDSON, REMOVESON, DELETE, ROOTAT, OUTGROUP, UNROOT, UNROOTJOIN, ISVALID, ISROOTED };
+  enum Kind { CREATE, CREATESON, SETFATHER, ADDSON, REMOVESON, DELETE, ROOTAT, OUTGROUP, UNROOT, UNROOTJOIN, ISVALID, ISROOTED, SETROOT };
   std::unique_ptr<TreeGlobalGraph> T;
   explicit TreeSys(const std::vector<int>& seed) : T(new TreeGlobalGraph(true)) { buildTree(*T, seed); }
-  static int nops() { return 1 + N + 3 * N * N + 3 * N + 4; }
+  static int nops() { return 1 + N + 3 * N * N + 3 * N + 4 + N; }
   struct Op { Kind k; int a, b; };
   static Op decode(int op) {
+    if (op >= 1 + N + 3 * N * N + 3 * N + 4) return Op{SETROOT, op - (1 + N + 3 * N * N + 3 * N + 4), 0};   // Graph::setRoot (public through the Graph interface; what the observers' setRoot calls)
     if (op == 0) return Op{CREATE, 0, 0};
     op -= 1; if (op < N) return Op{CREATESON, op, 0};
     op -= N; if (op < N * N) return Op{SETFATHER, op / N, op % N};
@@ -531,6 +532,7 @@ struct TreeSys : vf::SysBase {
     switch (o.k) {
       case CREATE: return "createNode()";
       case CREATESON: return "createNodeFromNode(" + str(o.a) + ")";
+      case SETROOT: return "Graph::setRoot(" + str(o.a) + ")";
       case SETFATHER: return "setFather(node " + str(o.a) + ", father " + str(o.b) + ")";
       case ADDSON: return "addSon(node " + str(o.a) + ", son " + str(o.b) + ")";
       case REMOVESON: return "removeSon(node " + str(o.a) + ", son " + str(o.b) + ")";
@@ -558,6 +560,7 @@ struct TreeSys : vf::SysBase {
       case REMOVESON: return dir && has(o.a) && has(o.b) && arc(o.a, o.b);
       case DELETE: return has(o.a);   // also on un-rooted (undirected) trees: a legal edit there too
       case ROOTAT: return has(o.a);
+      case SETROOT: return has(o.a);
       case OUTGROUP: return has(o.a) && T->highestNodeID_ + 2 <= (unsigned)N;
       case UNROOTJOIN: {
         if (!dir) return false;
@@ -607,6 +610,7 @@ struct TreeSys : vf::SysBase {
         case REMOVESON: T->removeSon((unsigned)o.a, (unsigned)o.b); break;
         case DELETE: T->deleteNode((unsigned)o.a); break;
         case ROOTAT: T->rootAt((unsigned)o.a); break;
+        case SETROOT: static_cast<Graph&>(*T).setRoot((unsigned)o.a); break;
         case OUTGROUP: T->setOutGroup((unsigned)o.a); break;
         case UNROOT: T->unRoot(false); break;
         case UNROOTJOIN: T->unRoot(true); break;
@@ -636,7 +640,7 @@ struct TreeSys : vf::SysBase {
     }
     if (o.k == ROOTAT && preValid && preConsistent) { judgeReroot(c, *T, preEdges, (unsigned)o.a, raised, !pre.directed, ctx); c.tag(pre.directed ? "history:rootAt-on-valid-rooted-tree" : "history:rootAt-on-valid-unrooted-tree"); }
     if (canon() != before) c.nontrivial();
-    static const char* kn[] = {"createNode", "createNodeFromNode", "setFather", "addSon", "removeSon", "deleteNode", "rootAt", "setOutGroup", "unRoot", "unRoot", "isValid", "isRooted"};
+    static const char* kn[] = {"createNode", "createNodeFromNode", "setFather", "addSon", "removeSon", "deleteNode", "rootAt", "setOutGroup", "unRoot", "unRoot", "isValid", "isRooted", "setRoot"};
     c.tag(std::string("tree-op:") + kn[o.k] + (raised ? ":raised" : ""));
     c.tag(ref ? "tree-state:valid" : "tree-state:invalid");
   }
